@@ -36,6 +36,9 @@ TOL_STEP = 2e-6        # next state: dominated by the solver term  h * dqacc
 TOL_SENS = 1e-9        # sensordata (pos/vel stages); acc-stage sensors use TOL_SOLVE
 
 ANALYTIC = {'plane', 'sphere', 'capsule'}
+# capsule-capsule: math.closest_segment_to_segment_points divides by (denom + 1e-6): closest points (hence pos/normal)
+# are only accurate to ~1e-5 relative; geometry is compared at TOL_CAPCAP and downstream comparisons are skipped.
+TOL_CAPCAP = 1e-3
 GEOM_NAMES = {0: 'plane', 1: 'hfield', 2: 'sphere', 3: 'capsule', 4: 'ellipsoid', 5: 'cylinder', 6: 'box', 7: 'mesh'}
 
 
@@ -153,7 +156,7 @@ def match_contacts(tm, td, dxi, info):
     analytic = kinds <= ANALYTIC
     lc, lx = byc.get(key, []), byx.get(key, [])
     if len(lc) != len(lx):
-      if analytic:
+      if analytic and kinds != {'capsule'}:   # parallel capsule-capsule: the C engine emits up to 2 contacts, MJX 1
         raise Violation('active contacts for geom pair %s (%s): C engine %d, MJX %d; C dist=%s MJX dist=%s' % (
             key, '-'.join(sorted(kinds)), len(lc), len(lx), con['dist'][lc].tolist(), xdist[lx].tolist()),
             bucket='contact-count')
@@ -189,7 +192,14 @@ def compare_contacts(tm, td, dxi, pairs, worst):
                 nrel(con['solreffriction'][i], np.asarray(cx.solreffriction[j])),
                 0.0 if int(con['dim'][i]) == int(cx.dim[j]) else float('inf'))
     geo = max(e_dist, e_pos, e_nrm)
-    if analytic:
+    if kinds == 'capsule':
+      worst.add('contact.geom.capsule-capsule', geo)
+      if geo > TOL_CAPCAP:
+        raise Violation('capsule-capsule contact geoms %s: dist C=%.17g MJX=%.17g, pos err %.3g, normal err %.3g' % (
+            con['geom'][i].tolist(), con['dist'][i], float(cx.dist[j]), e_pos, e_nrm), bucket='contact-geometry')
+      if geo > TOL_CONTACT or e_frame > TOL_CONTACT:
+        status = 'deviation:capsule-capsule-eps'
+    elif analytic:
       worst.add('contact.geom', geo)
       worst.add('contact.frame', e_frame)
       if geo > TOL_CONTACT:
@@ -269,7 +279,8 @@ def compare_state(ck, lib, c, s, tf, ts, dxf, dxs, worst, info):
     if e > tol:
       a = np.asarray(a); b = np.asarray(b).reshape(a.shape) if np.asarray(b).size == a.size else np.asarray(b)
       if COLLECT:
-        rec = COLLECTED.setdefault(bucket + '/' + name, [0, e, info.get('xml'), info.get('i')])
+        rec = COLLECTED.setdefault(bucket + '/' + name, [0, 'err %.3g C=%s MJX=%s' % (e, np.array2string(a.ravel()[:12], precision=10),
+                                   np.array2string(b.ravel()[:12], precision=10)), info.get('xml'), info.get('i'), info.get('seeds')])
         rec[0] += 1
         return
       raise Violation('%s differs: rel err %.3g > %.1g\n C engine: %s\n MJX     : %s' % (
@@ -429,13 +440,14 @@ class Runner:
       dxf = jax.tree_util.tree_map(lambda x: x[i], outf)
       dxs = jax.tree_util.tree_map(lambda x: x[i], outs)
       info['xml'] = gm.xml
+      info['seeds'] = list(seeds)
       info['i'] = i
       try:
         r = compare_state(ck, lib, c, s, tf, ts, dxf, dxs, self.worst, info)
       except Violation as e:
         if not COLLECT:
           raise
-        rec = COLLECTED.setdefault(e.bucket, [0, str(e)[:600], gm.xml, i])
+        rec = COLLECTED.setdefault(e.bucket, [0, str(e)[:600], gm.xml, i, list(seeds)])
         rec[0] += 1
         r = dict(status='collected')
       self.status[r['status'].split(':')[0] + (':' + r['status'].split(':')[1] if ':' in r['status'] else '')] += 1
